@@ -81,7 +81,7 @@ def requirements(tier):
             'foreign_class_dumps': 400 if q else 5000,
             'aborted_json_dumps': 300 if q else 4000,
             'baseline_calls': 5000 if q else 60000,
-            'thread_overlapping_calls': 3000 if q else 40000,
+            'thread_overlapping_calls': 2000 if q else 26666,
             'registry_snapshots_compared': 150 if q else 1800,
             'battery_runs': 150 if q else 1800}
 
@@ -367,6 +367,10 @@ def build_pool(ctx, rng, n):
         spec['classes'].append({
             'name': 'Only%d' % i, 'kind': 'plain',
             'params': [{'name': 'only%d_id' % i, 'type': 'int'}]})
+        # a class written as a scalar whose recogniser takes any scalar (also
+        # the null an empty document stands for)
+        spec['classes'].append({'name': 'AnyScalar', 'kind': 'userstring',
+                                'recognize': ['any']})
         # classes with a (shared, inherited) _yatiml_defaults dict whose
         # dumps remove defaulted attributes: user-class state that a dump
         # must not touch
@@ -466,6 +470,13 @@ def arg_pool(ctx, rng, specs, i):
             out.append(('dumps_json', None, {'$foreign': ospec,
                                              'value': V.encode_value(fo)},
                         {'indent': 2}, 'foreign-class'))
+    # empty documents: for the document type, for Optional[it], for a class
+    # that takes any scalar, for Optional[str]
+    for text in ('', '# nothing\n', '---\n', '~\n'):
+        for t2 in (dt, ['opt', dt], ['cls', 'AnyScalar'], ['opt', 'str'],
+                   ['opt', ['cls', 'Only%d' % i]]):
+            if rng.random() < 0.5:
+                out.append(('load', t2, text, {}, 'empty'))
     out.append(('load', dt, D.token_soup(rng), {}, 'soup'))
     out.append(('load', dt, rng.choice(D.CYCLES), {}, 'cycle'))
     if all(c.get('registered', True) for c in spec['classes']):
